@@ -7,6 +7,7 @@
 import Proofs.C01_Lemmas
 import Proofs.C01_Object
 import Proofs.C01_Source
+import Proofs.C01_Dispatch
 import Mathlib.Tactic.LinearCombination
 import Mathlib.Tactic.NormNum
 
